@@ -34,7 +34,55 @@ def restore_lookup(ck):
             "expected": "only 'Session not yet seen' before and found after"}, concrete=True)
 
 
+def api_lookup(ck):
+    """the same distinction at the HTTP layer, where the bridge sees it: for a session id newer than anything this node
+    has applied GET .../messages answers 500 'Session not yet seen' (the bridge retries elsewhere), never 404 (the bridge
+    gives the session up); for a deleted session 404 'No such session'."""
+    from props import c11 as api
+    facts, _, _ = api.scan_routes()
+    wiring = api.wiring_of(facts)
+    ops = api.setup_ops()          # slots 0..3; slot 3 is deleted at the end of the setup
+    future = ["0x7fffffffffff", "99999999999", "0xfffffffffffffff"]
+    reqs = []
+    for f in future:
+        reqs.append(api.R("GET", "/robustirc/v1/%s/messages" % f, "a1"))
+        reqs.append(api.R("GET", "/robustirc/v1/%s/messages" % f, "e"))
+    reqs.append(api.R("GET", "/robustirc/v1/{3}/messages", "a3"))
+    line = "api lookup " + " ".join(ops + reqs)
+    res, out = api.run_go([line], wiring, "c17api", timeout=900)
+    if res is None:
+        ck.add_obligation(False, "API lookup probe ran")
+        ck.violation("tie-broken:go-driver-api", {"what": "the API driver did not build/run against the current tree", "output": out[-3000:],
+                                                  "obligation": "correspondence apidrv (C17 lookup at the HTTP layer)"}, concrete=False)
+        return
+    ck.add_obligation(True, "API lookup probe ran")
+    obs = [o for o in res[0][2:] if o["op"] == "R"]
+    n = 0
+    for o in obs:
+        path = api.unhx(o["p"]).decode("latin-1")
+        status = int(o["status"])
+        n += 1
+        if "/{3}/" in path or path.endswith("/messages") and o is obs[-1]:
+            continue
+        hdr_empty = o["h"] in ("!", "-")
+        if hdr_empty:
+            continue                     # refused before the lookup (no header): 404 is right
+        if status != 500 or o["class"] != "notyet":
+            ck.violation("c17:api:notyet-answered-as-gone", {
+                "what": "GET %s for a session id newer than anything applied was answered %d (%s); the bridge treats 404 as 'session gone' — "
+                        "expected 500 'Session not yet seen'" % (path, status, o["class"]),
+                "cases": [line], "how_to_replay": "bin/check C17"}, concrete=True)
+            break
+    last = obs[-1]
+    if int(last["status"]) != 404:
+        ck.violation("c17:api:deleted-not-gone", {"what": "GET messages of a deleted session answered %s %s, expected 404" % (last["status"], last["class"]),
+                                                  "cases": [line]}, concrete=True)
+    ck.cov["api_lookup_requests"] = n
+    ck.cov["evaluations"] = ck.cov.get("evaluations", 0) + n
+
+
 def run(ck, replay):
     irc_common.run_irc_check(ck, "C17", "c17", replay)
     if not replay:
         restore_lookup(ck)
+        api_lookup(ck)
